@@ -4,19 +4,25 @@
 
    A picker is built over the n READY sub-connections 1..n.  Per connection it
    keeps the number of requests in flight, two exponentially weighted moving
-   averages (latency "lag" and "success"), the instant of the last completion
-   and the instant it was last picked.  Pick looks at two candidates and returns
-   the less loaded one -- unless the other one has not been picked for more than
-   forcePick, then that one is "forcibly selected" (comment in p2c.go).  Every
-   successful Pick hands out a done-callback; calling it ends the request:
-   in-flight is decremented and both averages move towards the new sample with
-   weight w = exp(-td/decayTime) for the old value (td = time since the previous
-   completion on that connection; no history -> the sample itself).
+   averages (latency "lag" and "success"), the instant of the last completion,
+   the instant it was last picked and the number of requests since the last
+   statistics line.  Pick looks at two candidates and returns the less loaded
+   one (load = sqrt(lag+1) * (inflight+1)) -- unless the other one has not been
+   picked for more than forcePick, then that one is "forcibly selected" (comment
+   in p2c.go).  Every successful Pick hands out a done-callback; calling it ends
+   the request: in-flight is decremented and both averages move towards the new
+   sample with weight w = exp(-td/decayTime) for the old value (td = time since
+   the previous completion on that connection; no history -> the sample itself).
+   A completion at least logInterval after the previous statistics line writes
+   one line "conn, load, reqs" per connection and resets the request counters.
 
    Time is integer (the drivers run the virtual clock timex.VerifNow in whole
-   milliseconds); lag is kept in LagScale sub-units of the time unit (ns in the
-   real code: LagScale = 1000000).  The floating point of the decay formula is a
-   parameter: MixOK(old, sample, td, new) says which new values are acceptable.  *)
+   milliseconds); lag is kept in LagScale sub-units of the time unit.  The
+   floating point of the code is a parameter: MixOK(old, sample, td, new) says
+   which new averages are acceptable, RootOK(lag, r) which r is an acceptable
+   integer square root of lag+1 (the field rt caches it: the code computes the
+   load from the lag in nanoseconds, the recorded traces carry the lag in
+   microseconds together with the root).                                       *)
 EXTENDS Integers, Sequences, FiniteSets, TLC
 
 CONSTANTS
@@ -28,44 +34,45 @@ CONSTANTS
   PickTimes,   \* number of pick attempts (n >= 3)
   LagScale,
   MixOK(_, _, _, _),   \* MixOK(old, sample, td, new)
-  Root(_),             \* floor(sqrt(x))
+  RootOK(_, _),        \* RootOK(lag, r): r = floor(sqrt(lag + 1)) up to the resolution of lag
   \* bounds of the environment, used only by PNextB (model checking / refinement)
-  Advs, LagVals, TokIds
+  Advs, LagVals, RootVals, TokIds
 
 VARIABLES
   n,      \* number of ready connections the picker was built over (0: none)
   now,    \* the clock
-  cs,     \* cs[c] = [inf, lag, succ, last, pick, req]
+  cs,     \* cs[c] = [inf, lag, rt, succ, last, pick, req]
   stamp,  \* instant of the last statistics line
-  toks    \* done-callbacks handed out and not yet called: [id, c, start]
+  toks,   \* done-callbacks handed out and not yet called: [id, c, start]
+  line    \* the statistics line written by the last step: <<load, reqs>> per connection, <<>> if none
 
-pvars == <<n, now, cs, stamp, toks>>
+pvars == <<n, now, cs, stamp, toks, line>>
 
 Conns == 1..n
-FreshConn == [inf |-> 0, lag |-> 0, succ |-> InitSucc, last |-> 0, pick |-> 0, req |-> 0]
+FreshConn == [inf |-> 0, lag |-> 0, rt |-> 1, succ |-> InitSucc, last |-> 0, pick |-> 0, req |-> 0]
 Max(a, b) == IF a >= b THEN a ELSE b
 Min(a, b) == IF a <= b THEN a ELSE b
 
-LoadOf(lag, inf) == LET l == Root(lag + 1) * (inf + 1) IN IF l = 0 THEN Penalty ELSE l
-Load(c)    == LoadOf(cs[c].lag, cs[c].inf)
+LoadOf(rt, inf) == LET l == rt * (inf + 1) IN IF l = 0 THEN Penalty ELSE l
+Load(c)    == LoadOf(cs[c].rt, cs[c].inf)
 Healthy(c) == cs[c].succ > Thr
 Overdue(c) == now - cs[c].pick > FP
 Held(c)    == {t \in toks : t.c = c}
 
 PInitWith(k, t0) ==
-  /\ n = k /\ now = t0 /\ stamp = 0 /\ toks = {}
+  /\ n = k /\ now = t0 /\ stamp = 0 /\ toks = {} /\ line = <<>>
   /\ cs = [c \in 1..k |-> FreshConn]
 
 \* Build(info) over k ready connections at clock t0 (also used as the trace "reset")
 PBuild(k, t0) ==
   /\ k >= 0 /\ t0 >= 0
-  /\ n' = k /\ now' = t0 /\ stamp' = 0 /\ toks' = {}
+  /\ n' = k /\ now' = t0 /\ stamp' = 0 /\ toks' = {} /\ line' = <<>>
   /\ cs' = [c \in 1..k |-> FreshConn]
 
-PAdvance(d) == d >= 0 /\ now' = now + d /\ UNCHANGED <<n, cs, stamp, toks>>
+PAdvance(d) == d >= 0 /\ now' = now + d /\ line' = <<>> /\ UNCHANGED <<n, cs, stamp, toks>>
 
 \* Pick on a picker without connections: ErrNoSubConnAvailable, nothing changes
-PPickNone == n = 0 /\ UNCHANGED pvars
+PPickNone == n = 0 /\ line' = <<>> /\ UNCHANGED <<n, now, cs, stamp, toks>>
 
 \* the rule of choose(c1, c2), as far as the comments in p2c.go fix it: the less loaded
 \* candidate is returned, except that a candidate that was "not selected for a period
@@ -98,6 +105,7 @@ PPick(a, b, ch, id) ==
   /\ \A t \in toks : t.id # id
   /\ cs' = [cs EXCEPT ![ch].pick = now, ![ch].inf = @ + 1, ![ch].req = @ + 1]
   /\ toks' = toks \cup {[id |-> id, c |-> ch, start |-> now]}
+  /\ line' = <<>>
   /\ UNCHANGED <<n, now, stamp>>
 
 PPickDrawn(ds, ch, id) ==
@@ -105,8 +113,11 @@ PPickDrawn(ds, ch, id) ==
   /\ DrawsOK(ds)
   /\ PPick(ds[Len(ds)][1], ds[Len(ds)][2], ch, id)
 
+\* the statistics line over connection states csv: load and requests since the last line
+StatLine(csv) == [c \in Conns |-> <<LoadOf(csv[c].rt, csv[c].inf), csv[c].req>>]
+
 \* the done-callback id is called; ok = the RPC error is nil or acceptable
-PDone(id, ok, nl, ns) ==
+PDone(id, ok, nl, nr, ns) ==
   \E t \in toks :
     /\ t.id = id
     /\ LET c  == t.c
@@ -114,38 +125,55 @@ PDone(id, ok, nl, ns) ==
            sl == Max(0, now - t.start) * LagScale
            ss == IF ok THEN InitSucc ELSE 0
            ol == cs[c].lag
-           cs1 == [cs EXCEPT ![c].inf = @ - 1, ![c].last = now, ![c].lag = nl, ![c].succ = ns]
+           cs1 == [cs EXCEPT ![c].inf = @ - 1, ![c].last = now, ![c].lag = nl, ![c].rt = nr, ![c].succ = ns]
        IN /\ IF ol = 0 THEN nl = sl /\ ns = ss        \* no history: w = 0
              ELSE MixOK(ol, sl, td, nl) /\ MixOK(cs[c].succ, ss, td, ns)
+          /\ RootOK(nl, nr)
           /\ IF now - stamp >= LogIv
-               THEN stamp' = now /\ cs' = [x \in Conns |-> [cs1[x] EXCEPT !.req = 0]]
-               ELSE stamp' = stamp /\ cs' = cs1
+               THEN /\ stamp' = now /\ line' = StatLine(cs1)
+                    /\ cs' = [x \in Conns |-> [cs1[x] EXCEPT !.req = 0]]
+               ELSE stamp' = stamp /\ cs' = cs1 /\ line' = <<>>
     /\ toks' = toks \ {t}
     /\ UNCHANGED <<n, now>>
 
 \* ---- bounded environment (model checking, refinement target) ----
-Seqs(S, k) == UNION {[1..m -> S] : m \in 1..k}
 PNextB ==
   \/ \E d \in Advs : PAdvance(d)
   \/ PPickNone
   \/ \E id \in TokIds, ch \in Conns :
        \/ n \in {1, 2} /\ \E a \in Conns, b \in Conns : PPick(a, b, ch, id)
-       \/ n >= 3 /\ \E ds \in Seqs({<<a, b>> : a \in Conns, b \in Conns}, PickTimes) : PPickDrawn(ds, ch, id)
-  \/ \E id \in TokIds, ok \in BOOLEAN, nl \in LagVals, ns \in 0..InitSucc : PDone(id, ok, nl, ns)
+       \* n >= 3: any two distinct connections can be the last draw (both healthy: drawn first;
+       \* otherwise: drawn PickTimes times), so \E ds : PPickDrawn(ds, ch, id) is just
+       \/ n >= 3 /\ \E a \in Conns, b \in Conns : PPick(a, b, ch, id)
+  \/ \E id \in TokIds, ok \in BOOLEAN, nl \in LagVals, nr \in RootVals, ns \in 0..InitSucc :
+       PDone(id, ok, nl, nr, ns)
+
+\* the same relation with the free values read off the next state (cheap to evaluate on a given
+\* pair of states: used as the refinement target of P2cImpl.tla)
+PNextR ==
+  \/ \E d \in Advs : PAdvance(d)
+  \/ PPickNone
+  \/ \E id \in TokIds, ch \in Conns, a \in Conns, b \in Conns : PPick(a, b, ch, id)
+  \/ \E t \in toks, ok \in BOOLEAN :
+       /\ cs'[t.c].lag \in LagVals /\ cs'[t.c].rt \in RootVals /\ cs'[t.c].succ \in 0..InitSucc
+       /\ PDone(t.id, ok, cs'[t.c].lag, cs'[t.c].rt, cs'[t.c].succ)
 
 \* ---- properties ----
 TypeOK ==
   /\ n \in Nat /\ now \in Nat /\ stamp \in Nat
   /\ DOMAIN cs = Conns
   /\ \A t \in toks : t.c \in Conns
+  /\ line = <<>> \/ DOMAIN line = Conns
 
 \* in-flight conservation: the counter is exactly the number of callbacks not yet
 \* called (never negative, back to zero when every request has ended)
 Conservation == \A c \in Conns : cs[c].inf = Cardinality(Held(c))
 SuccRange    == \A c \in Conns : cs[c].succ \in 0..InitSucc
-LagRange     == \A c \in Conns : cs[c].lag >= 0
+LagRange     == \A c \in Conns : cs[c].lag >= 0 /\ cs[c].rt >= 1
 Stamps       == /\ stamp <= now
                 /\ \A c \in Conns : cs[c].pick <= now /\ cs[c].last <= now
                 /\ \A t \in toks : t.start <= now /\ cs[t.c].pick >= t.start
 ReqCounts    == \A c \in Conns : cs[c].req >= 0
+\* a statistics line is written at the instant of the stamp, and the counters it reports are reset
+LineAtStamp  == line # <<>> => stamp = now /\ \A c \in Conns : cs[c].req = 0
 =============================================================================
